@@ -9,7 +9,8 @@ import json, os, re, shutil, subprocess, sys, tempfile, time, hashlib, random
 
 ROOT = os.path.dirname(os.path.dirname(os.path.abspath(__file__)))
 SPEC = os.path.join(ROOT, "spec")
-HARNESS = os.path.join(ROOT, "harness")
+# VERIF_HARNESS_DIR lets a developer work on a private copy of the harness crate; registered commands never set it
+HARNESS = os.environ.get("VERIF_HARNESS_DIR") or os.path.join(ROOT, "harness")
 VH = os.path.join(HARNESS, "target", "release", "vharness")
 EVID = os.path.join(ROOT, "evidence")
 REPLAYS = os.path.join(ROOT, "out", "replays")
@@ -195,15 +196,20 @@ def run_vh(args, timeout=1800, env=None):
 class Findings:
     def __init__(self, pid):
         self.pid = pid
-        path = os.path.join(ROOT, "known_findings.json")
+        # known_findings.json plus one optional file per property under known_findings.d/ (same format);
+        # all of them are committed by hand and never written by a registered command
+        import glob
+        paths = [os.path.join(ROOT, "known_findings.json")] + sorted(glob.glob(os.path.join(ROOT, "known_findings.d", "*.json")))
         self.open = {}
         self.fixed = []
-        if os.path.exists(path):
+        for path in paths:
+            if not os.path.exists(path):
+                continue
             data = json.load(open(path))
             for f in data.get("findings", []):
                 if f["property"] == pid:
                     self.open[f["signature"]] = f
-            self.fixed = [f for f in data.get("fixed", []) if f["property"] == pid]
+            self.fixed += [f for f in data.get("fixed", []) if f["property"] == pid]
         self.hit = {}
 
     def known(self, sig):
